@@ -315,7 +315,20 @@ pub fn storm_spec(rng: &mut Rng, ctr: &mut u64) -> ReqSpec {
         ReqSpec::Valid { size, .. } => *size as u32,
         _ => 1024,
     };
-    match rng.below(12) {
+    match rng.below(13) {
+        12 => {
+            // a well-formed request re-encoded with two fields exchanged or one repeated: tags
+            // not strictly ascending (with this server's SRV present half of the time, so that
+            // every other condition for an answer holds)
+            *ctr = ctr.wrapping_add(1);
+            let b = if rng.chance(2, 3) {
+                ReqSpec::Valid { proto: P::Ietf, size: size as u16, nonce_seed: *ctr, srv: if rng.chance(1, 2) { SrvMode::Correct } else { SrvMode::Absent }, vers: vec![r::VER_DRAFT13] }
+            } else {
+                ReqSpec::Valid { proto: P::Classic, size: size as u16, nonce_seed: *ctr, srv: SrvMode::Absent, vers: vec![] }
+            };
+            let m = if rng.chance(3, 4) { Mutation::SwapFields(rng.below(4) as u8, rng.below(4) as u8) } else { Mutation::RepeatField(rng.below(4) as u8) };
+            ReqSpec::Mutant { base: Box::new(b), muts: vec![m] }
+        }
         0 => ReqSpec::Garbage { len: if rng.chance(2, 3) { *rng.pick(&LEN_CLASSES) } else { rng.below(3000) as u32 }, seed: rng.next_u64() },
         1 | 2 => base,
         3 => {
